@@ -520,6 +520,38 @@ func (e *env) directed(rng *rand.Rand) {
 		e.r.Count("directed_conditions", 1)
 		e.r.Distinct("directed_classes", "session-ended-mid-request:"+meth)
 	}
+	// a monolithic POST whose (hidden) session is evicted while its body is still arriving - other clients opened sessions
+	// and the bound is small: the registry's own housekeeping, no mistake of this client's and no storage fault, so no 5xx
+	// (a server of its own: the bound of the batch's server is not that small)
+	{
+		mroot := ""
+		if e.kind != vh.Mem {
+			mroot = e.r.TempDir("c15m")
+		}
+		mc := vh.Conf(e.kind, mroot, vh.Neutral)
+		mc.Storage.GC.RepoUploadMax = 1
+		ms := vh.New(mc)
+		body := bytes.Repeat([]byte("m"), 4000+e.idx%9)
+		u := "/v2/r/blobs/uploads/?digest=" + vh.DigestOf("sha256", body)
+		pr, pw := io.Pipe()
+		done := make(chan vh.Resp, 1)
+		go func() { done <- vh.DoStream(ms, "POST", u, nil, pr) }()
+		_, _ = pw.Write(body[:2000])
+		for k := 0; k < 3; k++ {
+			vh.Do(ms, vh.Req{Method: "POST", URL: "/v2/r/blobs/uploads/"})
+			time.Sleep(2 * time.Millisecond)
+		}
+		_, _ = pw.Write(body[2000:])
+		_ = pw.Close()
+		rs := <-done
+		e.observe(vh.Req{Method: "POST", URL: u, UnknownLen: true}, rs, "", "directed:monolithic-session-evicted")
+		e.r.Count("directed_conditions", 1)
+		e.r.Distinct("directed_classes", fmt.Sprintf("monolithic-session-evicted:%d", rs.Status/100))
+		_ = ms.Close()
+		if mroot != "" {
+			vh.RemoveAll(mroot)
+		}
+	}
 	// ... and the same with nothing left to send: the completing PUT has read all there is when the session is ended
 	// under it (by the client's own DELETE, or by a second, identical PUT that completes first) - no more data arrives,
 	// the handler goes straight on to store a blob for a session that is gone
